@@ -37,7 +37,7 @@ FAULT_KINDS = {"C06": ["source_zeros", "source_ones", "source_counter", "source_
 COMPONENTS = {
     "real": ["passlib.utils.getrandbytes / getrandstr / generate_password", "salt generation of every palette hasher (HasSalt / HasRawSalt / bcrypt repair)",
              "passlib.totp.TOTP.new / generate_secret", "passlib.pwd.genword / genphrase", "passlib.handlers.django.django_disabled",
-             "libpass._salt.generate_salt*", "CryptContext's refusal of salt options", "random.Random's derived methods (randrange, choice) on top of the owned source"],
+             "libpass._salt.generate_salt*", "salts of libpass.hashers SHA256/SHA512/PBKDF2 hashers", "CryptContext's refusal of salt options", "random.Random's derived methods (randrange, choice) on top of the owned source"],
     "stub": ["the random source itself: passlib.utils.rng.getrandbits/_randbelow and secrets._sysrand (SimRandom: recording, scripted, extreme modes)"],
     "unavailable": ["AppWallet salts (need the 'cryptography' package)"],
 }
@@ -61,7 +61,7 @@ ALPHABETS = ["01", "abc", "abcde", "0123456789", "0123456789abcdef", H64, "".joi
 # ---------------------------------------------------------------------------------------------
 def generate(rng, prop, tier):
     api = rng.choices(["getrandbytes", "getrandstr", "salt", "totp_new", "generate_secret", "genword", "genphrase", "django_disabled",
-                       "libpass_salt", "ctx_pin_salt", "generate_password"], [16, 16, 20, 5, 4, 8, 6, 3, 4, 6, 2])[0]
+                       "libpass_salt", "ctx_pin_salt", "generate_password", "libpass_hasher_salt"], [16, 16, 20, 5, 4, 8, 6, 3, 5, 6, 2, 5])[0]
     mode = rng.choices(["stream", "zeros", "ones", "counter", "single_bit"], [70, 8, 8, 8, 6])[0]
     p = {}
     if api == "getrandbytes":
@@ -93,12 +93,15 @@ def generate(rng, prop, tier):
     elif api == "libpass_salt":
         p["length"] = rng.choice([1, 1, 2, 8, 16, 22])
         p["by_entropy"] = rng.random() < 0.3
+    elif api == "libpass_hasher_salt":
+        p["hasher"] = rng.choice(["sha256", "sha512", "pbkdf2_sha256", "pbkdf2_sha512"])
+        p["bits"] = rng.choice([6, 12, 64, 128]) if p["hasher"].startswith("pbkdf2") else None
     elif api == "ctx_pin_salt":
         p["form"] = rng.choice(["ctor", "update", "load_update", "ini", "category", "all"])
         p["hasher"] = rng.choice(["md5_crypt", "sha256_crypt", "pbkdf2_sha256", "bcrypt", "ldap_salted_sha1"])
     elif api == "generate_password":
         p["size"] = rng.choice([1, 4, 10, 20])
-    reps = rng.choice([50, 200, 600]) if api in ("salt", "totp_new", "genphrase", "django_disabled") else rng.choice([200, 1000, 3000])
+    reps = rng.choice([50, 200, 600]) if api in ("salt", "totp_new", "genphrase", "django_disabled", "libpass_hasher_salt") else rng.choice([200, 1000, 3000])
     return {"cfg": {"api": api, "params": p, "mode": mode, "reps": reps, "seed": rng.getrandbits(32),
                     "exhaustive": rng.random() < (0.5 if tier == "thorough" else 0.15), "flips": rng.randint(4, 24)}, "ops": []}
 
@@ -208,6 +211,36 @@ class _Gen:
             self.alphabet = list("ABCDEFGHIJKLMNOPQRSTUVWXYZabcdefghijklmnopqrstuvwxyz0123456789")
             self.n = 40
             self.call = lambda: H.hash("x")[1:]
+        elif a == "libpass_hasher_salt":
+            import string
+
+            from libpass.hashers.pbkdf2 import PBKDF2SHA256Handler, PBKDF2SHA512Handler
+            from libpass.hashers.sha_crypt import SHA256Hasher, SHA512Hasher
+
+            h = p["hasher"]
+            if h.startswith("pbkdf2"):
+                Hc = (PBKDF2SHA256Handler if h == "pbkdf2_sha256" else PBKDF2SHA512Handler)(rounds=1, salt_entropy_bits=p["bits"])
+                self.alphabet = list(string.ascii_letters + string.digits)
+                self.n = math.ceil(p["bits"] / math.log2(62))
+                name = h
+
+                def call():
+                    ex = extract(Hc.hash("pw"), only=(name,))
+                    if ex is None:
+                        raise RuntimeError("extractor cannot read a libpass pbkdf2 hash")
+                    return ex[2].decode("ascii")
+            else:
+                Hc = (SHA256Hasher if h == "sha256" else SHA512Hasher)(rounds=1000)
+                self.alphabet = list(H64)
+                self.n = 16
+                name = h + "_crypt"
+
+                def call():
+                    ex = extract(Hc.hash("pw"), only=(name,))
+                    if ex is None:
+                        raise RuntimeError("extractor cannot read a libpass sha-crypt hash")
+                    return ex[2]
+            self.call = call
         elif a == "libpass_salt":
             import string
 
@@ -381,7 +414,7 @@ def _run(cfg, ctx, src, g):
     # ---- small spaces: ALL answers of the source (exhaustive enumeration of this sub-case): every declared value must be
     #      produced by the same number of answers, whether or not draw space and value space have the same size -------------
     v0, rec0 = _one(ctx, src, g, "reference for enumeration")
-    slow = api in ("salt", "totp_new", "genphrase", "django_disabled")
+    slow = api in ("salt", "totp_new", "genphrase", "django_disabled", "libpass_hasher_salt")
     if len(rec0) == 1 and S <= 2 ** 16:
         kind, r, _ = rec0[0]
         total = (1 << r) if kind == "getrandbits" else r
